@@ -219,6 +219,89 @@ def parse_table_rows(which):
     return rows
 
 
+def in_place(ck):
+    """The emitted expression where the generator puts it: one neuron / kernel per gate id inside a compiled dense layer and inside
+    compiled convolutions of tree depth 0 and 1 (2-D and 3-D); every Boolean input, smallest and widest word.  A and B are the FIRST and
+    the SECOND wired input of the gate (an emitter that hands get_gate_code the operands in the other order computes the table of
+    another id for the eight asymmetric gates)."""
+    import itertools
+    from harness import compiled
+    from torchlogix.layers import LogicDense, LogicConv2d, LogicConv3d
+    gates = list(range(16))
+
+    def passthrough(param):
+        with torch.no_grad():
+            param.fill_(-4.0)
+            param[:, 3] = 4.0                                # gate 3 = A
+
+    def build(kind):
+        torch.manual_seed(ck.seed + 404)
+        if kind == "dense":
+            layer = LogicDense(2, 16, device="cpu")
+            layer.indices = (torch.zeros(16, dtype=torch.long), torch.ones(16, dtype=torch.long))
+            nets.set_gates(ck.rng, layer, gates, "raw")
+            return torch.nn.Sequential(layer), (2,), [(0, 1)] * 16
+        dims, depth = (2 if "2d" in kind else 3), int(kind[-1])
+        cls = LogicConv2d if dims == 2 else LogicConv3d
+        layer = cls(in_dim=2, device="cpu", channels=1, num_kernels=16, tree_depth=depth, receptive_field_size=2,
+                    connections="random-unique")
+        pa, pb = layer.kernel_pairs
+        side = [2] * dims
+
+        def flat(coord):                                     # (spatial..., channel) -> position in the flattened (C, spatial...) sample
+            idx = 0
+            for c_, n_ in zip(coord[:dims], side):
+                idx = idx * n_ + int(c_)
+            return idx
+        wired = []
+        for k in range(16):
+            if depth == 0:
+                wired.append((flat(pa[k][0].tolist()), flat(pb[k][0].tolist())))
+            else:                                            # first-level gates pass their first input on; the root gate is the probed one
+                wired.append((flat(pa[k][0].tolist()), flat(pa[k][1].tolist())))
+        if depth == 0:
+            nets.set_gates(ck.rng, layer.tree_weights[0][0], gates, "raw")
+        else:
+            for node in layer.tree_weights[0]:
+                passthrough(node)
+            nets.set_gates(ck.rng, layer.tree_weights[1][0], gates, "raw")
+        return torch.nn.Sequential(layer, torch.nn.Flatten()), tuple([1] + side), wired
+
+    for kind in ("dense", "conv2d-depth0", "conv2d-depth1", "conv3d-depth0", "conv3d-depth1"):
+        for W in (8, 64):
+            case = {"repr": "C-in-place", "emitter": kind, "W": W}
+            ck.case(case, nontrivial=True, kind="in-place")
+            try:
+                model, shape, wired = build(kind)
+                model.eval()
+                n_in = int(np.prod(shape))
+                rows = [list(bits) for bits in itertools.product([0, 1], repeat=n_in)]
+                rows = rows * (1 + (W + 1) // len(rows))            # more than one machine word
+                net = compiled.build(model, W)
+                compiled.compile_net(net, opt=1)
+                got = compiled.forward(net, np.array(rows, dtype=bool).reshape((len(rows),) + shape))
+            except Exception as e:
+                ck.broke("correspondence", f"gate expressions in place ({kind}, W={W})", repr(e)[:300])
+                continue
+            done = False
+            for r, row in enumerate(rows):
+                for g in range(16):
+                    a, b = row[wired[g][0]], row[wired[g][1]]
+                    if int(got[r][g]) != tt(g, a, b):
+                        table = ""
+                        for ab in ((0, 0), (0, 1), (1, 0), (1, 1)):
+                            rr = next(i for i, x in enumerate(rows) if (x[wired[g][0]], x[wired[g][1]]) == ab)
+                            table += str(int(got[rr][g]))
+                        ck.disagree("a gate emitted inside a compiled layer computes the table of another id",
+                                    dict(case, gate=g, first_input=wired[g][0], second_input=wired[g][1], input_row=row,
+                                         computed_table_AB_00_01_10_11=table),
+                                    expected=tt(g, a, b), observed=int(got[r][g]), signature={"repr": "C-in-place", "emitter": kind, "gate": g})
+                        done = True
+                        break
+                if done:
+                    break
+
+
 def run(ck: Check):
     ck.trusted = TRUSTED
     ck.rule = ("systematic: 16 gates x (4 Boolean corners + random dyadic points) for the three Python representations; "
@@ -251,6 +334,7 @@ def run(ck: Check):
                             expected=[nets.tt(g, a, b) for a in (0, 1) for b in (0, 1)], signature={"what": "docs", "gate": g})
         ck.count("documented_rows_checked", 16)
     correspond(ck)
+    in_place(ck)
     return ck.finish()
 
 
